@@ -6,6 +6,7 @@ import (
 	"verifharness/internal/hk"
 	_ "verifharness/props/c10"
 	_ "verifharness/props/c12"
+	_ "verifharness/props/c14"
 	_ "verifharness/props/c19"
 	_ "verifharness/props/c20"
 )
